@@ -39,7 +39,12 @@ func init() {
 	register(&Prop{
 		ID:    "C20",
 		Level: "exploration",
-		Nodes: func(tier string) []string { return []string{"race", "race-noclmul", "race-noaes", "race-purego"} },
+		Nodes: func(tier string) []string {
+			if tier == "thorough" {
+				return []string{"race", "race-noclmul", "race-noaes", "race-purego"}
+			}
+			return []string{"race", "race-noclmul", "race-noaes"}
+		},
 		Cross: true,
 		Gen:   genC20,
 		Exec:  execC20,
